@@ -226,16 +226,24 @@ func (nullLogger) Print(...interface{})          {}
 func (nullLogger) Printf(string, ...interface{}) {}
 func (nullLogger) Println(...interface{})        {}
 
+// The option values are built once per process and reused by every call, the way a program (and
+// the library's own test table) holds them: an option must not carry state from one call to the next.
+var (
+	optLogger = fit.WithLogger(nullLogger{})
+	optUF     = fit.WithUnknownFields()
+	optUM     = fit.WithUnknownMessages()
+)
+
 func parseOpts(s string) []fit.DecodeOption {
 	var o []fit.DecodeOption
 	if len(s) > 0 && s[0] == '1' {
-		o = append(o, fit.WithLogger(nullLogger{}))
+		o = append(o, optLogger)
 	}
 	if len(s) > 1 && s[1] == '1' {
-		o = append(o, fit.WithUnknownFields())
+		o = append(o, optUF)
 	}
 	if len(s) > 2 && s[2] == '1' {
-		o = append(o, fit.WithUnknownMessages())
+		o = append(o, optUM)
 	}
 	return o
 }
